@@ -139,12 +139,23 @@ def oracleC03 (c : Json) (d : Diff) (impl : Outcome Json) : String :=
   if !(d.all (fun h => !h.merge && strictListPath h.path)) then "ok skipped-not-strict-list"
   else compareRef specEq impl (applyStrictAll c d)
 
+/-- some element of the list has an equivalent later in the list -/
+def dupUnder (eqv : Json → Json → Bool) : List Json → Bool
+  | [] => false
+  | x :: r => r.any (eqv x) || dupUnder eqv r
+
 /-- C08: set / bag / keyed hunks against the reference semantics -/
 def oracleC08 (c : Json) (d : Diff) (impl : Outcome Json) : String :=
   if d.any (·.merge) then "ok skipped-merge" else
   let o : Opts := if d.any (fun h => h.path.any (fun e => match e with | .mset | .msetKeys _ => true | _ => false)) then [.mset] else [.set]
   let res := compareRef (equivB o) impl (applyRefAll c d)
   if res == "ok" then res
+  -- a SET hunk that lists one element twice under `-` is malformed; the property does not say whether
+  -- the second removal finds the element "absent" (the code rejects: SetPatch `duplicate removals
+  -- rejected`) or whether the list is read as a set (the reference): a rejection is accepted
+  else if (match impl with | .err => true | _ => false) &&
+      d.any (fun h => (match h.path.getLast? with | some .set => true | _ => false) &&
+        dupUnder (equivB [.set]) h.remove) then "ok dup-set-removal-rejected"
   else
     -- class of KF-C08-swallow: the code reports success although a keyed member's nested patch failed
     let nodes := subterms c ++ d.flatMap (fun h => (h.remove ++ h.add).flatMap subterms)
